@@ -209,6 +209,18 @@ Print Assumptions C17_signals_before_exit.
     answer, the function's and the initializer's outcome, pickle.dumps / loads succeeding, pid,
     exit code incl. positive ones, the name table, the OS state of the process, the clock).
     Everything below is proved in Proc/HelperTie.v for ALL environments.
+    LABELS (harness/HARDEN_TASK.md item 4).  Genuine = a statement about the interpretation of a REGENERATED term, proved
+    by evaluating that term.  C17_tie_signatures is a PIN (reflexivity against hand-copied parameter lists / field
+    names / method names / default expressions).  Three programs are HAND-WRITTEN, not regenerated: [client_prog] (the
+    client `async with MultiprocessingLogging() as initializer: BODY`, written with an exit stack holding that one
+    context), [worker_init_prog] (one line of concurrent.futures.process._process_worker) and the mapping of Model's
+    worlds to environments ([realises], [proj_ev], [proj_result]); what they CALL is regenerated.  The meaning of the
+    known callables (executor, queue, logging, pickle, os.kill, Process.terminate/kill, the clock) and of the two
+    concurrency abstractions (the listener task and the `_run` task are run when they are awaited; `await
+    event.wait()` peeks at the prefix of `_run` up to its first real wait) is the interpreter's, i.e. hand-written and
+    trusted; a second cancellation arriving INSIDE the context manager's `finally` is not modelled.  try / except /
+    else / finally, `async with AsyncExitStack()`, asynccontextmanager's enter / exit protocol and the bare `raise` have
+    their real meaning: a raise or a cancellation at the with-body reaches the `finally`; a hang does not.
     (From here on the names of Proc/HelperInterp.v shadow those of Proc/Model.v; the model's are
     written Model.x.) *)
 From Coq Require Import String.
@@ -226,8 +238,25 @@ Theorem C17_tie_signatures :
   call_all_params = ["*funcs"] /\ call_params = ["func"] /\
   outer_params = ["func"; "mp_context"; "initializer"; "collect_logging"] /\
   exited_fields = ["returned"; "raised"; "process"; "process_created_at"; "process_exited_at"] /\
-  exitcode_keys_negated = true.
+  exitcode_keys_negated = true /\
+  rp_methods = ["__init__"; "__repr__"; "_log_created"; "_log_exited"; "_format_time"; "interrupt"; "send_signal";
+                "terminate"; "kill"; "__await__"] /\
+  logging_defaults = [("mp_context", ENone)] /\
+  outer_defaults = [("mp_context", ENone); ("initializer", ENone); ("collect_logging", EBool false)].
 Proof. exact signatures. Qed.
+
+(** the default argument values are regenerated and EVALUATED: `run_in_process(func)` runs without a given
+    context, without an initializer and WITHOUT log collection; `MultiprocessingLogging()` without a given context *)
+Theorem C17_tie_default_call_frames : forall E,
+  call_frame E outer_params outer_defaults [("func", VUserFunc)] = Some (outer_args false VNone VNone) /\
+  call_frame E logging_params logging_defaults [] = Some [("mp_context", VNone)].
+Proof. exact default_call_frames. Qed.
+
+Theorem C17_tie_start_with_defaults : forall E f,
+  call_frame E outer_params outer_defaults [("func", VUserFunc)] = Some f ->
+  fst (run E outer_prog (st0 f)) = CReturn (VHandle (handle_attrs (e_tick E 0))) /\
+  task_frame (snd (run E outer_prog (st0 f))) = run_frame false VNone VNone.
+Proof. exact start_with_defaults. Qed.
 
 (** the regenerated coroutine `_listen`, at EVERY state in which its closure variable `queue` is the
     queue: completion, remaining queue and handled records are the closed form (induction over the
@@ -443,6 +472,8 @@ Example C17_tie_example_nonvacuous :
 Proof. cbv zeta. repeat split; try (intros r; reflexivity); vm_compute; reflexivity. Qed.
 
 Print Assumptions C17_tie_signatures.
+Print Assumptions C17_tie_default_call_frames.
+Print Assumptions C17_tie_start_with_defaults.
 Print Assumptions C17_tie_listener_closed_form.
 Print Assumptions C17_tie_listener_started_once.
 Print Assumptions C17_tie_sentinel_on_every_exit_path.
